@@ -172,6 +172,7 @@ split=> //.
     by apply: z; lia.
 Qed.
 
+Local Arguments arnoldi_step : simpl never.
 (* no step of the run starts from a breakdown (residual norm below near_0) *)
 Fixpoint nb_run (l : list nat) (st : fac * nat) : bool :=
   if l is i :: l' then ~~ Ops.ltb O (fbeta O st.1) near0 && nb_run l' (step i st) else true.
